@@ -103,6 +103,9 @@ func hasAllTx(c *dbft.Context[H], req dbft.ConsensusPayload[H]) bool {
 // monBroadcast: C03, C04, C07 on every own broadcast of a trusted node.
 func (n *Node) monBroadcast(p *Payload) {
 	if n.earlierLife {
+		// a restarted validator: what it holds as evidence cannot be judged from this instance alone, but it must not
+		// contradict what it *knows* it sent in its earlier life (payloads of its own index that the library stored)
+		n.monEquivocationOnly(p)
 		return
 	}
 	w := n.w
@@ -504,4 +507,67 @@ func (n *Node) monTxSupplied(h H, wasRequested bool, preView byte, preLeaving, p
 		}
 	}
 	n.w.violate("C12", "C12/no-answer-after-last-transaction", n, fmt.Sprintf("all requested transactions of the view-%d proposal supplied, no PrepareResponse/ChangeView broadcast", preView))
+}
+
+// monEquivocationOnly: C03's one-proposal / one-response per view and one-(pre)commit per height for an instance with
+// an earlier life (see Node.Receive and noteEarlierLife).
+func (n *Node) monEquivocationOnly(p *Payload) {
+	w := n.w
+	m := n.monFor(n.ctx().BlockIndex)
+	if p.height != m.height {
+		return
+	}
+	one := func(kind string, seen map[byte]H, v byte, h H) {
+		if old, ok := seen[v]; ok && old != h {
+			w.violate("C03", "C03/two-"+kind+"-one-view", n, fmt.Sprintf("two different %s for view %d (the first one known from the node's earlier life or sent by this instance)", kind, v))
+		}
+		seen[v] = h
+	}
+	switch p.typ {
+	case dbft.PrepareRequestType:
+		one("PrepareRequest", m.sentReq, p.view, p.Hash())
+	case dbft.PrepareResponseType:
+		one("PrepareResponse", m.sentResp, p.view, p.Hash())
+	case dbft.CommitType:
+		if m.hasCommit && m.sentCommit != p.Hash() {
+			w.violate("C03", "C03/two-commits", n, "two different commits at one height: "+p.String())
+		}
+		m.hasCommit, m.sentCommit = true, p.Hash()
+	case dbft.PreCommitType:
+		if m.hasPreC && m.sentPreC != p.Hash() {
+			w.violate("C03", "C03/two-precommits", n, "two different pre-commits at one height: "+p.String())
+		}
+		m.hasPreC, m.sentPreC = true, p.Hash()
+	}
+}
+
+// noteEarlierLife records an own-index payload that came back to a restarted validator, provided the library has
+// stored exactly this payload in the node's own slot (then the node knows it) and the monitor has nothing recorded yet.
+func (n *Node) noteEarlierLife(p *Payload) {
+	c := n.ctx()
+	if c.MyIndex < 0 || int(p.idx) != c.MyIndex || p.height != c.BlockIndex {
+		return
+	}
+	m := n.monFor(c.BlockIndex)
+	holds := func(tbl []dbft.ConsensusPayload[H]) bool {
+		return c.MyIndex < len(tbl) && tbl[c.MyIndex] != nil && tbl[c.MyIndex].Hash() == p.Hash()
+	}
+	switch p.typ {
+	case dbft.PrepareRequestType:
+		if _, ok := m.sentReq[p.view]; !ok && p.view == c.ViewNumber && holds(c.PreparationPayloads) {
+			m.sentReq[p.view] = p.Hash()
+		}
+	case dbft.PrepareResponseType:
+		if _, ok := m.sentResp[p.view]; !ok && p.view == c.ViewNumber && holds(c.PreparationPayloads) {
+			m.sentResp[p.view] = p.Hash()
+		}
+	case dbft.CommitType:
+		if !m.hasCommit && holds(c.CommitPayloads) {
+			m.hasCommit, m.sentCommit = true, p.Hash()
+		}
+	case dbft.PreCommitType:
+		if !m.hasPreC && holds(c.PreCommitPayloads) {
+			m.hasPreC, m.sentPreC = true, p.Hash()
+		}
+	}
 }
